@@ -143,7 +143,7 @@ func runManagedStatus(o checks.Opts) *report.Report {
 	rep := report.New("C19", "managed-object-status")
 	shapes := statusShapes(!o.Quick())
 	rep.Bounds["status_shapes"] = len(shapes)
-	rep.Rule = "a managed Widget (controlled by the ObjectSet, condition mapping Ready => my/Ready, condition probe Ready=True) carries every status shape of the grammar {absent, null, \"\", \"x\", 0, 1.5, true, [], [s], {}, {k:s}} to depth 2, conditions lists with each condition field taking every base shape; one real ObjectSet pass (active and paused) and one real ObjectSetPhase pass per shape under recover(); distinct = persisted Available status/reason or error class"
+	rep.Rule = "a managed Widget (controlled by the ObjectSet, condition mapping Ready => my/Ready, condition probe Ready=True) carries every status shape of the grammar {absent, null, \"\", \"x\", 0, 1.5, true, [], [s], {}, {k:s}} to depth 2, conditions lists with each condition field taking every base shape; one real ObjectSet pass (active and paused) and one real ObjectSetPhase pass per shape under recover(); plus availability probe specifications the schema accepts (CEL rules valid / syntax error / non-boolean / run-time error with and without message, fieldsEqual paths, condition probes, empty probes and selectors), each reconciled three times in one long-lived operator process; distinct = persisted Available status/reason or error class"
 	for i, sh := range shapes {
 		if o.Shards > 1 && i%o.Shards != o.Shard {
 			continue
@@ -203,6 +203,7 @@ func runManagedStatus(o checks.Opts) *report.Report {
 			rep.Samples = append(rep.Samples, map[string]any{"status": string(b), "set": sh.Set})
 		}
 	}
+	probeSpecSeam(rep, o)
 	rep.States, rep.Transitions = rep.Executions, rep.Executions
 	return rep
 }
